@@ -202,7 +202,8 @@ def ops19 : List (String × Op) := [
       let rdims ← optIntsF j "rdims"
       let cdims ← optIntsF j "cdims"
       let tshape ← field j "tshape" >>= asNats
-      let a : TenmatArgs := { dshape, rdims, cdims, tshape }
+      let vec : Bool := match fieldOpt j "vec" with | some (.bool b) => b | _ => false
+      let a : TenmatArgs := { dshape, rdims, cdims, tshape, vec }
       .ok (reply (decide (Pre_tenmat a)) (validate_tenmat a))
     | "sptenmat" => do
       let subs ← field j "subs" >>= asIntMat
